@@ -217,6 +217,9 @@ pub fn ecall_sig(n: i32) -> Option<(&'static [u8], &'static [u8])> {
     })
 }
 
+/// Every environment call of the table that does not end the program.
+pub const NON_EXIT_ECALLS: [i64; 29] = [1, 4, 5, 8, 9, 11, 12, 17, 30, 31, 32, 33, 34, 35, 36, 40, 41, 42, 43, 50, 54, 55, 56, 57, 59, 62, 63, 64, 1024];
+
 #[derive(Clone, Debug, PartialEq, Eq)]
 pub enum Halt {
     Exit,
